@@ -322,6 +322,8 @@ fn oracle(c: &Case, acc: &mut Acc) -> CaseResult {
                     peer = vec![0u8; 32];
                     peer[0] = 1;
                 },
+                // arbitrary 32-byte strings: about half are on the twist, most have a torsion component
+                (DhKind::X25519, 5) => peer = expand(*seed, 77, 32),
                 (DhKind::P256, 1) => {
                     peer[40] ^= 1; // off-curve point
                     expect_err = true;
@@ -491,7 +493,7 @@ pub fn run(ctx: &Ctx) {
     ctx.run_list("boundary_inputs", &cases, false, oracle);
     ctx.run_prop(
         "random_inputs",
-        ctx.tier.pick(20_000, 1_000_000),
+        ctx.tier.pick(300_000, 3_000_000),
         || {
             let be = prop_oneof![Just(Be::Default), Just(Be::Ring)];
             let hk = (0usize..4).prop_map(|i| HASHES[i]);
